@@ -3,6 +3,7 @@ import CkptVerif.Model.Mixed
 import CkptVerif.Model.Revolve
 import CkptVerif.Spec.Configs
 import CkptVerif.Model.ActionApi
+import CkptVerif.Model.Planners
 /-!
 # Line-protocol driver over the executable model and the spec monitor
 
@@ -90,28 +91,6 @@ def parseLine (s : String) : Line :=
 
 def parseTraj : String → Option Traj
   | "maximum" => some .maximum | "revolve" => some .revolve | _ => none
-
-/-- Tables shared by all requests of one driver run (cell values do not depend on the table
-size, so one table of the largest size requested so far serves every request). -/
-structure Tabs where
-  size : Nat
-  memo : Array (Array Cell)
-  tab : Option (Array (Array TCell))
-
-def Tabs.mk' (n : Nat) : Tabs := { size := n, memo := dpTable memoF n (n + 1), tab := mixedTab n n }
-
-/-- planners for the two code paths of mixed.py -/
-def memoPlanner (T : Tabs) : Planner :=
-  fun m k =>
-    let s := clampS m k
-    if validKey m s then some (dpGet T.memo m s) else none
-
-def tabPlanner (T : Tabs) : Planner :=
-  match T.tab with
-  | none => fun _ _ => none
-  | some t => fun m k =>
-    let c := tabGet t m k
-    if c.kind = stNone ∨ c.cost < 0 then none else some ⟨c.kind, c.len, c.cost.toNat⟩
 
 /-- A class description: the model object and the specification config for `Nfin`. -/
 structure ClassSpec where
